@@ -270,6 +270,9 @@ func (c Cmd) options() (server.ServiceOptions, server.TargetOptions) {
 		so.TLSEnabled, so.TLSCertificatePath, so.TLSPrivateKeyPath = true, filepath.Join(fix, "badcert.pem"), filepath.Join(fix, "badkey.pem")
 	case "missingcert":
 		so.TLSEnabled, so.TLSCertificatePath, so.TLSPrivateKeyPath = true, filepath.Join(fix, "nope.pem"), filepath.Join(fix, "nokey.pem")
+	case "off-with-cert":
+		// TLS off, but the certificate flags of an earlier TLS deployment are still given
+		so.TLSEnabled, so.TLSCertificatePath, so.TLSPrivateKeyPath = false, filepath.Join(fix, "cert.pem"), filepath.Join(fix, "key.pem")
 	case "acme":
 		so.TLSEnabled, so.ACMEDirectory, so.ACMECachePath = true, "http://acme.invalid/dir", filepath.Join(fix, "acme-cache")
 	}
